@@ -165,7 +165,8 @@ def _run_unit_once(unit_name, repo, workdir, rlimit, extra_args, mutate, keep, a
         if msg.startswith('aborting due to'):
             continue
         spans = d.get('spans', [])
-        prim = next((s for s in spans if s.get('is_primary')), spans[0] if spans else None)
+        own = [s_ for s_ in spans if os.path.basename(s_.get('file_name', '')) == unit_name + '.rs']
+        prim = next((s_ for s_ in own if s_.get('is_primary')), own[0] if own else None)
         rec = {'message': msg, 'rendered': d.get('rendered', ''), 'code': (d.get('code') or {}).get('code') if d.get('code') else None}
         last_err = rec
         r.raw_errors.append(rec)
